@@ -37,6 +37,15 @@ def specRaw (s : DSignal) (d : Data) : Int :=
   | .sint _ => specSigned u s.length
   | .uint _ => u
 
+/-- a float32 NaN pattern decodes to *a* NaN: the payload bits of a signalling NaN are quieted by the float32 ->
+float64 -> float32 path of the generated code (hardware behaviour), which is not a difference in value -/
+def isNaN32 (v : Int) : Bool := (v / 2 ^ 23 % 256 == 255) && (v % 2 ^ 23 != 0)
+
+def rawAgrees (s : DSignal) (stored spec : Int) : Bool :=
+  match kindOf s with
+  | .float => stored == spec || (isNaN32 stored && isNaN32 spec)
+  | _ => stored == spec
+
 /-- spec-level encoding: zero payload, each transferred signal's low `length` bits at its layout -/
 def specEncode (m : DMessage) (st : GState) : Data :=
   let zs := m.signals.zip st.vals
@@ -100,7 +109,7 @@ def stepOp (m : DMessage) (r : Run) (op : String) : Option Run := do
       let mv : Option Int := (muxOf m).map fun p => st'.vals.getD p.1 0
       let bad := (m.signals.zip st'.vals).any fun (p : DSignal × Raw) =>
         let transferred := !p.1.muxed || (mv == some (p.1.muxValue : Int))
-        transferred && p.2 != specRaw p.1 f.data
+        transferred && !rawAgrees p.1 p.2 (specRaw p.1 f.data)
       let r := if bad then noteViol r "decode" else r
       some (emit (checkState m r "unmarshal") "ok")
   | ["rt"] =>
